@@ -53,7 +53,6 @@ public:
     ItemList mIdList;
     ModelWeakPtr mModel;
     size_t mCounter = 0xb4da55;
-    size_t mHash = 0;
 
     AnyCellmlElementPtr convertToWeak(const AnyCellmlElementPtr &item);
     AnyCellmlElementPtr convertToShared(const AnyCellmlElementPtr &item);
@@ -116,9 +115,6 @@ public:
      * @return @c true if the @p id exists at @p index, @c false otherwise.
      */
     bool exists(const std::string &id, size_t index, bool unique = false);
-
-    size_t generateHash();
-    void doUpdateComponentHash(const ComponentPtr &component, std::string &idsString);
 
     void addIssueNoModel();
     void addIssueInvalidArgument(CellmlElementType type);
@@ -476,18 +472,15 @@ size_t Annotator::AnnotatorImpl::idCount()
 
 void Annotator::AnnotatorImpl::update()
 {
+    // The model can be edited at any time after it has been handed to the annotator, so
+    // the list of identifiers is always rebuilt from the model as it is now.
     removeAllIssues();
-    size_t hash = generateHash();
-    if (mHash != hash) {
-        buildIdList();
-        mHash = hash;
-    }
+    buildIdList();
 }
 
 void Annotator::setModel(const ModelPtr &model)
 {
     pFunc()->mModel = model;
-    pFunc()->mHash = 0;
     pFunc()->update();
 }
 
@@ -754,7 +747,6 @@ void Annotator::clearAllIds()
         model->removeEncapsulationId();
 
         pFunc()->mIdList.clear();
-        pFunc()->mHash = 0;
     } else {
         pFunc()->addIssueNoModel();
     }
@@ -802,6 +794,7 @@ bool Annotator::assignAllIds()
 {
     auto model = pFunc()->mModel.lock();
     if (model != nullptr) {
+        pFunc()->update();
         size_t initialSize = pFunc()->idCount();
         pFunc()->doSetAllAutomaticIds();
         return pFunc()->idCount() > initialSize;
@@ -830,6 +823,7 @@ bool Annotator::assignIds(CellmlElementType type)
         return false;
     }
 
+    pFunc()->update();
     size_t initialSize = pFunc()->idCount();
 
     switch (type) {
@@ -1426,62 +1420,6 @@ size_t Annotator::itemCount(const std::string &id)
 {
     pFunc()->update();
     return pFunc()->mIdList.count(id);
-}
-
-void Annotator::AnnotatorImpl::doUpdateComponentHash(const ComponentPtr &component, std::string &idsString)
-{
-    for (size_t i = 0; i < component->variableCount(); ++i) {
-        idsString += "v=" + std::to_string(i) + component->variable(i)->id();
-    }
-
-    for (size_t i = 0; i < component->resetCount(); ++i) {
-        auto reset = component->reset(i);
-        idsString += "r=" + std::to_string(i) + reset->id() + "rv=" + reset->resetValueId() + "tv=" + reset->testValueId();
-    }
-
-    // Note that MathML identifiers are not yet included.
-
-    for (size_t i = 0; i < component->componentCount(); ++i) {
-        auto child = component->component(i);
-        idsString += "c=" + std::to_string(i) + child->id() + "ce=" + child->encapsulationId();
-        doUpdateComponentHash(child, idsString);
-    }
-}
-
-size_t Annotator::AnnotatorImpl::generateHash()
-{
-    // Serialise the stored model into a (very) simplified string of identifier-based items, and create a hash.
-    size_t hash = 0;
-    auto model = mModel.lock();
-    if (model != nullptr) {
-        std::string idsString;
-        size_t i;
-        idsString += "m=" + model->id() + "me=" + model->encapsulationId();
-
-        auto importSources = getAllImportSources(model);
-        i = 0;
-        for (auto &importSource : importSources) {
-            idsString += "i=" + std::to_string(++i) + importSource->id();
-        }
-
-        for (i = 0; i < model->unitsCount(); ++i) {
-            auto units = model->units(i);
-            idsString += "U=" + std::to_string(i) + units->id();
-            for (size_t j = 0; j < units->unitCount(); ++j) {
-                idsString += "u=" + std::to_string(j) + units->unitId(j);
-            }
-        }
-
-        for (i = 0; i < model->componentCount(); ++i) {
-            auto component = model->component(i);
-            idsString += "c=" + std::to_string(i) + component->id();
-            idsString += "cr=" + std::to_string(i) + component->encapsulationId();
-            doUpdateComponentHash(component, idsString);
-        }
-
-        hash = std::hash<std::string> {}(idsString);
-    }
-    return hash;
 }
 
 bool Annotator::hasModel() const
